@@ -2,7 +2,7 @@
 
 Crash-point enumeration: for every strategy/configuration/integrand the uninterrupted run U (final limits) is
 recorded; then for EVERY evaluation index k of U a run is stopped exactly at k (max_evaluations = n_k - 1) and
-continued with the final limits in four variants (continue directly / through performSpatiallyAdaptiv(refinement_container=...) / save_to_file -> restore_from_file -> continue
+continued with the final limits in five variants (continue directly / continue after reevaluate_at_end=True / through performSpatiallyAdaptiv(refinement_container=...) / save_to_file -> restore_from_file -> continue
 the restored copy / save, continue the original, then restore and continue the copy).  Final refinement structure,
 scheme, combined result and point count must equal U's; a restored instance must evaluate and interpolate
 identically to the saved one.
@@ -105,13 +105,15 @@ def run_case(case):
     variant = c["variant"]
     key["variant"] = variant
     sa2, eo2, lm, op2, ref, seen2, nrm = c13._make(strat, kind, norm, with_reference=wr)
-    A = sa2.performSpatiallyAdaptiv(lm[0], lm[1], eo2, tol=tol, max_evaluations=nk[k] - 1, print_output=False)
+    A = sa2.performSpatiallyAdaptiv(lm[0], lm[1], eo2, tol=tol, max_evaluations=nk[k] - 1, print_output=False,
+                                    reevaluate_at_end=(variant == "reevaluated_at_end_then_continue"))
     if [int(x) for x in A[6]] != nk[:k + 1]:
         raise core.HarnessError("interrupted run did not stop at evaluation %d: %r vs %r" % (k, list(A[6]), nk))
     path = os.path.join(os.getcwd(), "c14_%d_%d.dill" % (os.getpid(), k))
-    if variant == "continue":
+    if variant in ("continue", "reevaluated_at_end_then_continue"):
+        # (second variant: the stopped run re-evaluated its final combination from scratch before returning)
         R = sa2.continue_adaptive_refinement(tol=tol, max_evaluations=mx_final)
-        _compare(u, _final(sa2, R, strat), "stop at evaluation %d, continue" % k, key, fails)
+        _compare(u, _final(sa2, R, strat), "stop at evaluation %d, %s" % (k, variant), key, fails)
     elif variant == "perform_with_refinement_container":
         # the documented other way to continue: hand the refinement of the stopped run back to performSpatiallyAdaptiv
         R = sa2.performSpatiallyAdaptiv(lm[0], lm[1], eo2, tol=tol, max_evaluations=mx_final, print_output=False, refinement_container=A[0])
@@ -163,7 +165,8 @@ def main(ctx):
         ctx.absorb(bc, res, group="uninterrupted")
         nk = res.get("nk") or []
         for k in range(len(nk)):               # incl. the last index: a run stopped there by max_evaluations, then continued with the final limits
-            for variant in ("continue", "save_restore_continue", "save_continue_original_then_copy", "perform_with_refinement_container"):
+            for variant in ("continue", "save_restore_continue", "save_continue_original_then_copy", "perform_with_refinement_container",
+                            "reevaluated_at_end_then_continue"):
                 cases.append({"config": dict(bc["config"], stop_at=k, variant=variant)})
     results = ctx.map(cases, chunksize=1)
     for case, res in zip(cases, results):
